@@ -105,6 +105,7 @@ type vfFault struct {
 	Nth     int    `json:"nth"`            // the n-th (1-based) packet of that kind in that direction
 	Act     string `json:"act"`            // drop | dup | delay
 	DelayUs int64  `json:"delay,omitempty"` // for delay/dup
+	Rel     bool   `json:"rel,omitempty"`   // Nth counts from the instant vfNet.markRel was called (kind "any" only)
 }
 
 type vfLinkCfg struct {
